@@ -463,3 +463,80 @@ def c12(work, tier, seed):
     rep.assumptions = ["cancellation is delivered through a context whose Done() reports cancellation from the n-th call on: every node entry polls it, so 'every instant' = every poll index of the search",
                        "the board record compares FEN, hash, ply, last move, castled flags and result class (Unknown and Undecided are one class)"]
     return rep.finish(work)
+
+
+# ----------------------------------------------------------------------------------------
+@check("C17")
+def c17(work, tier, seed):
+    rep = Report("C17", tier, seed)
+    quick = tier == "quick"
+    vh = vlib.build_harness(work)
+    # (1) the model: every interleaving of the bounded configuration
+    consts = {"Procs": "{1, 2}" if quick else "{1, 2, 3}", "NSlots": 2, "Hashes": "{0, 1, 2}", "Vals": "{1, 2}",
+              "WritesPerProc": 2, "AtomicUsed": "TRUE"}
+    cfg = vlib.cfg_text(constants=consts, invariants=["SlotIntegrity", "ReplacementOrder", "UsedInRange", "UsedExact", "UsedTracks"])
+    r = vlib.tlc(work, "TT", cfg, workers=vlib.NCPU, timeout=3000, heap="12g")
+    vlib.need_tlc_ok(r, "TT")
+    rep.add_tlc(r)
+    rep.extra["mc_tt"] = {"states": r.distinct, "constants": consts, "wall_s": round(r.wall, 1)}
+    # the as-coded grain of the counter (read, then write) must be REJECTED by the same model:
+    # this keeps the UsedExact invariant from being vacuous
+    consts2 = dict(consts, AtomicUsed="FALSE", Procs="{1, 2}")
+    r2 = vlib.tlc(work, "TT", vlib.cfg_text(constants=consts2, invariants=["UsedExact"]), workers=4, timeout=600, heap="4g", name="TT-plainincr")
+    if r2.ok:
+        raise Inconclusive("TT.tla: UsedExact is vacuous (holds even with a non-atomic counter)")
+
+    # (2) histories from the real table, linearizability decided by TLC
+    shards = 8 if quick else 16
+    n = 60 if quick else 1500
+
+    def one(i):
+        trace = work.path("tt%d.ndjson" % i)
+        vlib.run_harness(work, vh, ["tthammer", "-seed", seed * 100 + i, "-n", n, "-calls", 6 + i % 5, "-g", 2 + i % 7, "-out", trace])
+        rr = vlib.validate_trace(work, "TraceTT", ["C17"], trace, timeout=3000, heap="4g")
+        return rr
+    results = vlib.run_many(one, range(shards))
+    overl = 0
+    for r in results:
+        pend = set()
+        for line in open(r.trace):
+            if '"op":"inv"' in line:
+                e = json.loads(line)
+                pend.add(e["id"])
+                if len(pend) > 1:
+                    overl += 1
+            elif '"op":"resp"' in line:
+                pend.discard(json.loads(line)["id"])
+            elif '"op":"ttreset"' in line:
+                rep.traces += 1
+    rep.counters({"overlapping_invocations": overl})
+    for i in (2, 3, 4):
+        rep.sample(vlib.read_line(results[0].trace, i))
+    vlib.absorb_trace_results(rep, results)
+    if overl < 100:
+        raise Inconclusive("C17: histories are not concurrent enough (%d overlapping invocations)" % overl)
+
+    # (3) the same hammer and two real searches sharing a table under the race detector: a race report
+    # falsifies the atomicity the model assumes (DESIGN.md section 8)
+    vr = vlib.build_harness(work, race=True)
+    trace = work.path("ttrace.ndjson")
+    p = vlib.run_harness(work, vr, ["tthammer", "-seed", seed, "-n", 60 if quick else 600, "-calls", 10, "-g", 8, "-out", trace], check=False, timeout=1800)
+    p2 = vlib.run_harness(work, vr, ["ttsearch", "-seed", seed, "-n", 3 if quick else 20], check=False, timeout=1800)
+    races = 0
+    for pp, what in ((p, "tthammer"), (p2, "ttsearch")):
+        txt = pp.stdout + pp.stderr
+        if "WARNING: DATA RACE" in txt:
+            races += 1
+            d = os.path.join(vlib.ROOT, "replay", "C17")
+            os.makedirs(d, exist_ok=True)
+            path = os.path.join(d, "race-%s-seed%d.txt" % (what, seed))
+            open(path, "w").write(txt[:20000])
+            rep.fail_events["c17.data-race"] = rep.fail_events.get("c17.data-race", 0) + 1
+            rep.violations.append(("c17.data-race", path))
+        elif pp.returncode != 0:
+            raise Inconclusive("race-detector run of %s failed: %s" % (what, txt[-2000:]))
+    rep.extra["race_detector_runs"] = 2
+    rep.extra["race_reports"] = races
+    rep.assumptions = ["linearizability is decided over histories of <= ~80 calls by 2..8 goroutines on tables of 1, 2 and 4 slots; stamps come from one atomic counter (before the call / after it returns)",
+                       "data-race freedom is a dynamic check (Go race detector) over the executed schedules, not a proof"]
+    return rep.finish(work)
